@@ -235,8 +235,10 @@ int EGLPNUM_TYPENAME_ILLprice_build_pricing_info (
 		switch (p_price)
 		{
 		case QS_PRICE_PDEVEX:
-			if (pinf->pdinfo.norms)
-				return rval;
+			/* a reference framework kept from an earlier solve has the
+			 * dimensions of that solve, the problem may have grown since */
+			EGLPNUM_TYPENAME_EGlpNumFreeArray (pinf->pdinfo.norms);
+			ILL_IFFREE (pinf->pdinfo.refframe);
 			rval = EGLPNUM_TYPENAME_ILLprice_build_pdevex_norms (lp, &(pinf->pdinfo), 0);
 			CHECKRVALG(rval,CLEANUP);
 			break;
@@ -279,8 +281,8 @@ int EGLPNUM_TYPENAME_ILLprice_build_pricing_info (
 			CHECKRVALG(rval,CLEANUP);
 			break;
 		case QS_PRICE_DDEVEX:
-			if (pinf->ddinfo.norms)
-				return rval;
+			EGLPNUM_TYPENAME_EGlpNumFreeArray (pinf->ddinfo.norms);
+			ILL_IFFREE (pinf->ddinfo.refframe);
 			rval = EGLPNUM_TYPENAME_ILLprice_build_ddevex_norms (lp, &(pinf->ddinfo), 0);
 			CHECKRVALG(rval,CLEANUP);
 			break;
